@@ -385,6 +385,26 @@ def mutate_somehow(t, y):
             pass
 
 
+def sub_values(t, x, budget):
+    """(type, view) of the value itself and of some of its composite sub-values (first / last elements, fields)"""
+    out = [(t, x)]
+    k = kind(t)
+    if budget <= 0 or isinstance(t, str):
+        return out
+    if k in ('vec', 'list') and not isinstance(t[1], str) and len(x) > 0:
+        for i in sorted({0, len(x) - 1}):
+            out += sub_values(t[1], x[i], budget - 1)
+    elif k == 'cont':
+        for i, ft in enumerate(t[1:]):
+            if not isinstance(ft, str):
+                out += sub_values(ft, getattr(x, 'f%d' % i), budget - 1)
+    elif k == 'union':
+        val = x.value()
+        if val is not None and not isinstance(t[1:][x.selector()], str):
+            out += sub_values(t[1:][x.selector()], val, budget - 1)
+    return out
+
+
 def run_val(t, v):
     T = mk_type(t)
     out = []
@@ -466,6 +486,18 @@ def run_val(t, v):
         z = T.from_obj(o2)
         return '%s/%s/%s/%d%d' % (txt, y.hash_tree_root().hex(), z.hash_tree_root().hex(), int(y == x), int(z == x))
     put('p.obj', E(obj))
+
+    def obj2():
+        # every imported result is the caller's to mutate: import the value and some of its sub-values on their own,
+        # mutate those results, then import the (untouched) exported object again
+        o = x.to_obj()
+        for st, sx in sub_values(t, x, 2)[:8]:
+            w = mk_type(st).from_obj(sx.to_obj())
+            mutate_somehow(st, w)
+        y = T.from_obj(o)
+        z = T.from_obj(json.loads(json.dumps(o)))
+        return '%s/%s' % (y.hash_tree_root().hex(), z.hash_tree_root().hex())
+    put('p.obj2', E(obj2))
     put('p.objjson', E(lambda: json.dumps(x.to_obj(), separators=(',', ':'))))
     # equality / hash
     def eqs():
@@ -560,6 +592,26 @@ def elem_arg(t, v):
             raise e0
 
 
+_PREPARED = {}
+_ALIASES = {}
+
+
+def prepare_seth(t, op):
+    """the value of a `seth` op: a view of the element type (every second time: of an alias SUBCLASS of it,
+    `class Alias(ElemType): pass`) whose root has been computed already"""
+    i = int(op[1])
+    et = t[1] if kind(t) in ('vec', 'list') else t[1:][i]
+    val = mk_val(et, op[2])
+    if len(show(op[2])) % 2 == 0:
+        T = mk_type(et)
+        key = show(et)
+        if key not in _ALIASES:
+            _ALIASES[key] = type('Alias', (T,), {})
+        val = _ALIASES[key].view_from_backing(val.get_backing())
+    val.hash_tree_root()
+    return val
+
+
 def apply_op(t, x, op):
     k = op[0]
     tk = kind(t)
@@ -582,6 +634,15 @@ def apply_op(t, x, op):
             raise ValueError("unsupported")
     elif k == 'pop':
         x.pop()
+    elif k == 'seth':
+        i = int(op[1])
+        val = _PREPARED.pop(id(op), None)
+        if val is None:
+            val = prepare_seth(t, op)
+        if tk == 'cont':
+            setattr(x, 'f%d' % i, val)
+        else:
+            x[i] = val
     elif k == 'setf':
         i = int(op[1])
         val = mk_val(op[2], op[3])
@@ -631,6 +692,11 @@ def run_hist(t, v, ops, fresh=False):
     put('p.root0', E(lambda: x.hash_tree_root().hex()))
     for k, op in enumerate(ops):
         old_backing = x.get_backing()
+        if op[0] == 'seth':
+            try:
+                _PREPARED[id(op)] = prepare_seth(t, op)   # built and hashed outside the measured section
+            except Exception:
+                pass
         try:
             (_, cost_op) = hashes_during(lambda: apply_op(t, x, op))
             put('%d.p' % k, 'ok')
